@@ -998,6 +998,7 @@ def pin_targets(repo):
         ('netapi/is_closed', nmi, r'fn\s+is_closed\s*\(&self\)\s*->\s*bool'),
         ('netapi/peers', nmi, r'fn\s+peers\s*\(&self\)\s*->\s*Vec<PeerId>'),
         ('netapi/upgrade', nm, r'pub fn\s+upgrade\s*\(&self\)\s*->\s*Option<Network>'),
+        ('netapi/builder_start', nm, r'pub fn start<T>\(mut self, service: T\)\s*->\s*Result<Network>'),
         ('tlsconfig/build', cfe, r'pub fn build\s*\(self\)\s*->\s*Result<EndpointConfig>'),
         ('tlsconfig/server_config', cfe, r'fn\s+server_config\s*\(\s*certs:.*?\)\s*->\s*Result<quinn::ServerConfig>'),
         ('tlsconfig/client_config', cfe, r'fn\s+client_config\s*\([^)]*\)\s*->\s*Result<[^{]*>'),
